@@ -23,6 +23,19 @@ Ltac zb :=
 Lemma cmpZ_spec a b : (cmpZ a b = -1 /\ a < b) \/ (cmpZ a b = 0 /\ a = b) \/ (cmpZ a b = 1 /\ a > b).
 Proof. unfold cmpZ. destruct (Z.compare_spec a b); lia. Qed.
 
+(* shape-independent case analysis: every boolean test on the objects, every integer comparison and every
+   three-way comparison is split, whatever the nesting of the conditionals in the generated term *)
+Ltac split_tests :=
+  unfold cmpZ in *;
+  rewrite ?Z.gtb_ltb, ?Z.geb_leb in *;
+  repeat match goal with
+  | |- context [Z.compare ?a ?b] => destruct (Z.compare_spec a b)
+  | |- context [Z.eqb ?a ?b] => destruct (Z.eqb_spec a b)
+  | |- context [Z.ltb ?a ?b] => destruct (Z.ltb_spec a b)
+  | |- context [Z.leb ?a ?b] => destruct (Z.leb_spec a b)
+  | |- context [if ?c then _ else _] => let E := fresh "E" in destruct c eqn:E
+  end; cbn [negb andb orb] in *.
+
 Section HorzSegSort.
   Variable obj : Type.
   Variable nil_rightOp nil_self : obj -> bool.
@@ -31,19 +44,13 @@ Section HorzSegSort.
   Definition hs_valid (a : obj) : Prop := nil_rightOp a = false.
 
   Theorem horzSegSort_range a b : hss a b = -1 \/ hss a b = 0 \/ hss a b = 1.
-  Proof.
-    unfold hss, gen_horzSegSort.
-    destruct (nil_self a), (nil_self b), (nil_rightOp a), (nil_rightOp b); cbn; try lia;
-    destruct (cmpZ_spec (leftX a) (leftX b)); lia.
-  Qed.
+  Proof. unfold hss, gen_horzSegSort. split_tests; lia. Qed.
 
   Theorem horzSegSort_antisym a b :
     nil_self a = false -> nil_self b = false -> hss a b = - hss b a.
   Proof.
-    intros Ha Hb. unfold hss, gen_horzSegSort. rewrite Ha, Hb. cbn.
-    destruct (nil_rightOp a), (nil_rightOp b); cbn; try lia.
-    destruct (cmpZ_spec (leftX a) (leftX b)) as [[E ?]|[[E ?]|[E ?]]];
-    destruct (cmpZ_spec (leftX b) (leftX a)) as [[F ?]|[[F ?]|[F ?]]]; lia.
+    intros Ha Hb. unfold hss, gen_horzSegSort. rewrite ?Ha, ?Hb.
+    destruct (nil_rightOp a), (nil_rightOp b); split_tests; try lia; try congruence.
   Qed.
 
   (* exactly the upstream order: valid segments first, by increasing left X *)
@@ -51,26 +58,18 @@ Section HorzSegSort.
     nil_self a = false -> nil_self b = false ->
     (hss a b < 0 <-> (hs_valid a /\ ~ hs_valid b) \/ (hs_valid a /\ hs_valid b /\ leftX a < leftX b)).
   Proof.
-    intros Ha Hb. unfold hss, gen_horzSegSort, hs_valid. rewrite Ha, Hb. cbn.
-    destruct (nil_rightOp a) eqn:Ra, (nil_rightOp b) eqn:Rb; cbn.
-    - split; [lia | intros [[H _]|[H _]]; discriminate].
-    - split; [lia | intros [[H _]|[H _]]; discriminate].
-    - split; [intros _; left; split; [reflexivity | discriminate] | intros _; lia].
-    - destruct (cmpZ_spec (leftX a) (leftX b)) as [[E L]|[[E L]|[E L]]]; rewrite E.
-      + split; [intros _; right; repeat split; assumption | intros _; lia].
-      + split; [lia | intros [[_ N]|[_ [_ N]]]; [exfalso; apply N; reflexivity | lia]].
-      + split; [lia | intros [[_ N]|[_ [_ N]]]; [exfalso; apply N; reflexivity | lia]].
+    intros Ha Hb. unfold hss, gen_horzSegSort, hs_valid. rewrite ?Ha, ?Hb.
+    destruct (nil_rightOp a) eqn:Ra, (nil_rightOp b) eqn:Rb; split_tests;
+    (split; [intro L; try lia; first [ left; split; [reflexivity | discriminate] | right; repeat split; (reflexivity || lia) ]
+            | intros [[V N]|[V [V2 L]]]; try discriminate; try lia; try (exfalso; apply N; reflexivity) ]).
   Qed.
 
   Theorem horzSegSort_trans a b c :
     nil_self a = false -> nil_self b = false -> nil_self c = false ->
     hss a b <= 0 -> hss b c <= 0 -> hss a c <= 0.
   Proof.
-    intros Ha Hb Hc. unfold hss, gen_horzSegSort. rewrite Ha, Hb, Hc. cbn.
-    destruct (nil_rightOp a), (nil_rightOp b), (nil_rightOp c); cbn; try lia.
-    destruct (cmpZ_spec (leftX a) (leftX b)) as [[E ?]|[[E ?]|[E ?]]];
-    destruct (cmpZ_spec (leftX b) (leftX c)) as [[F ?]|[[F ?]|[F ?]]];
-    destruct (cmpZ_spec (leftX a) (leftX c)) as [[G ?]|[[G ?]|[G ?]]]; lia.
+    intros Ha Hb Hc. unfold hss, gen_horzSegSort. rewrite ?Ha, ?Hb, ?Hc.
+    destruct (nil_rightOp a), (nil_rightOp b), (nil_rightOp c); split_tests; try lia; try congruence.
   Qed.
 End HorzSegSort.
 
